@@ -836,6 +836,11 @@ example : ∃ names' rows', withColumnM ["a", "b", "c"] "b" c12Arith c12Rows = .
   C12.withColumn_spec ["a", "b", "c"] "b" c12Arith c12Rows (by decide) (by decide)
     (fun r hr => ⟨_, (C12.eval_matches_reference c12Cols c12Arith .int r c12ArithTy (c12RowsOk r hr)).1⟩)
 
+-- NONVACUOUS: PysparklingVerif.C12.withColumn_positional
+/-- the frame `SELECT a, a, c` (names not unique): replacing "c" by `col0 + col1 * 2` -/
+example := C12.withColumn_positional ["a", "a", "c"] "c" c12Arith c12Rows (by decide)
+    (fun r hr => ⟨_, (C12.eval_matches_reference c12Cols c12Arith .int r c12ArithTy (c12RowsOk r hr)).1⟩)
+
 end C12
 
 /-! ## C13 -/
